@@ -266,6 +266,8 @@ def _measurement_report(r, nr, src, use_3d, want_groups=False):
     groups = []
     for g in range(r.randint(1, 3)):
         pts = nr.integers(1, 4, size=(4, 3 if use_3d else 2)).astype(np.float64)
+        if r.random() < 0.5:
+            pts = pts / 3.0                 # not representable in the 32-bit floats GraphicData is stored in
         if use_3d:
             pts[:, 2] = pts[0, 2]            # a 3-D polygon must be planar
         pts = np.vstack([pts, pts[:1]])
@@ -405,11 +407,14 @@ def subject_pr(r, nr):
             d.RescaleSlope = 1
             d.RescaleType = 'HU'
     how = r.choice(['c', 'f', 'readonly', 'view'])
-    circle = layout(np.array([[2.0, 2.0], [3.0, 2.0]]), how)
+    third = r.choice([1.0, 1.0 / 3.0])
+    circle = layout(np.array([[2.0, 2.0], [3.0, 2.0]]) * third, how)
     layer = pr.GraphicLayer(layer_name='LAYER1', order=1, description='layer',
                             display_color=hd.color.CIELabColor(0.0, 127.0, 127.0))
     gobj = pr.GraphicObject(graphic_type=pr.GraphicTypeValues.CIRCLE, graphic_data=circle, units=pr.AnnotationUnitsValues.PIXEL)
-    tobj = pr.TextObject(text_value='text', units=pr.AnnotationUnitsValues.PIXEL, bounding_box=(1.0, 1.0, 3.0, 3.0))
+    tobj = pr.TextObject(text_value='text', units=pr.AnnotationUnitsValues.PIXEL,
+                         bounding_box=(1.0 * third, 1.0 * third, 3.0 * third, 3.0 * third),
+                         anchor_point=(2.0 * third, 2.0 * third) if r.random() < 0.5 else None)
     ann = pr.GraphicAnnotation(referenced_images=src, graphic_layer=layer, graphic_objects=[gobj], text_objects=[tobj])
     ids = _ids(r)
     eq = _equip()
